@@ -899,12 +899,14 @@ func (fs *fileStore) iterate(outFields []core.Field, ms *memstore, okayToReuseBu
 				}
 			}
 
-			var more bool
-			if includesAtLeastOneColumn {
-				more, err = onRow(key, columns, raw)
-				if err != nil {
-					fs.t.log.Errorf("Error processing row from %v: %v", fs.filename, err)
-				}
+			if !includesAtLeastOneColumn {
+				// nothing of interest in this row, keep reading
+				continue
+			}
+
+			more, err := onRow(key, columns, raw)
+			if err != nil {
+				fs.t.log.Errorf("Error processing row from %v: %v", fs.filename, err)
 			}
 
 			if !more || err != nil {
